@@ -418,7 +418,7 @@ func genTarCase(t *rapid.T) TarCase {
 	c := TarCase{Fix: rapid.IntRange(0, nFixtures-1).Draw(t, "fix"), EndBlocks: rapid.SampledFrom([]int{2, 2, 2, 2, 0, 1, 3}).Draw(t, "endblocks")}
 	fx := getFixture(c.Fix)
 	var base []TarEntry
-	mode := rapid.SampledFrom([]string{"full", "full", "full", "permuted", "subset", "none"}).Draw(t, "base")
+	mode := rapid.SampledFrom([]string{"full", "full", "full", "permuted", "subset", "swapped", "none"}).Draw(t, "base")
 	if mode != "none" {
 		for _, p := range fx.order {
 			base = append(base, TarEntry{Name: p, Type: "reg", Ref: p})
@@ -427,6 +427,10 @@ func genTarCase(t *rapid.T) TarCase {
 	switch mode {
 	case "permuted":
 		base = rapid.Permutation(base).Draw(t, "perm")
+	case "swapped": // two members carry each other's payload
+		i := rapid.IntRange(0, len(base)-1).Draw(t, "swap_a")
+		j := rapid.IntRange(0, len(base)-1).Draw(t, "swap_b")
+		base[i].Ref, base[j].Ref = base[j].Ref, base[i].Ref
 	case "subset":
 		drop := rapid.IntRange(0, len(base)-1).Draw(t, "drop")
 		base = append(base[:drop:drop], base[drop+1:]...)
@@ -501,6 +505,13 @@ func tarOracle(c TarCase) (evid.Info, error) {
 	if v.skip != "" {
 		info.Skip = v.skip
 		return info, nil
+	}
+	swapped := false
+	for _, e := range c.Entries {
+		swapped = swapped || (e.Ref != "" && e.Ref != e.Name)
+	}
+	if swapped {
+		labels = append(labels, "payload-swapped")
 	}
 	info.NonTrivial = !(len(labels) == 1 && labels[0] == "benign")
 	info.Classes = append([]string{"codec=" + fx.codec, "dest=" + c.Dest, fmt.Sprintf("endblocks=%d", c.EndBlocks)}, v.list()...)
